@@ -3,9 +3,59 @@
   Only property theorems and non-vacuity examples live here; the lemmas are in Lemmas/RangeCoder*.lean.
 -/
 import XzVerif.Lemmas.RangeCoderAdaptive
+import XzVerif.Model.Lzma2Enc
+import XzVerif.Gen.C01
 
 namespace XzVerif.C01
-open XzVerif.RangeDec XzVerif.RangeEnc XzVerif.RangeCoder
+open XzVerif.RangeDec XzVerif.RangeEnc XzVerif.RangeCoder XzVerif.Lzma XzVerif.LzmaEnc XzVerif.Lzma2Enc
+
+/-! ### bridges to the regenerated source (Gen/C01.lean is rewritten from /repo on every run) -/
+
+/-- every `#define` the models rely on has the value the source has today -/
+theorem gen_constants :
+    Gen.C01.rcShiftBits = RC_SHIFT_BITS ∧ Gen.C01.rcTopValue = RC_TOP_VALUE ∧ Gen.C01.rcBitModelTotalBits = RC_BIT_MODEL_TOTAL_BITS ∧
+    Gen.C01.rcBitModelTotal = RC_BIT_MODEL_TOTAL ∧ Gen.C01.rcMoveBits = RC_MOVE_BITS ∧ Gen.C01.rcSymbolsMax = RC_SYMBOLS_MAX ∧
+    Gen.C01.lzma2ChunkMax = LZMA2_CHUNK_MAX ∧ Gen.C01.lzma2UncompressedMax = LZMA2_UNCOMPRESSED_MAX ∧
+    Gen.C01.lzma2HeaderMax = LZMA2_HEADER_MAX ∧ Gen.C01.lzma2HeaderUncompressed = LZMA2_HEADER_UNCOMPRESSED ∧
+    Gen.C01.opts = OPTS ∧ Gen.C01.loopInputMax = LOOP_INPUT_MAX ∧
+    Gen.C01.matchLenMin = MATCH_LEN_MIN ∧ Gen.C01.matchLenMax = MATCH_LEN_MAX ∧ Gen.C01.lenLowSymbols = LEN_LOW_SYMBOLS ∧
+    Gen.C01.lenMidSymbols = LEN_MID_SYMBOLS ∧ Gen.C01.lenHighSymbols = LEN_HIGH_SYMBOLS ∧ Gen.C01.distStates = DIST_STATES ∧
+    Gen.C01.distSlotBits = DIST_SLOT_BITS ∧ Gen.C01.distModelStart = DIST_MODEL_START ∧ Gen.C01.distModelEnd = DIST_MODEL_END ∧
+    Gen.C01.fullDistances = FULL_DISTANCES ∧ Gen.C01.alignBits = ALIGN_BITS ∧ Gen.C01.reps = REPS ∧ Gen.C01.states = STATES ∧
+    Gen.C01.litStates = LIT_STATES ∧ Gen.C01.posStatesMax = POS_STATES_MAX ∧ Gen.C01.literalCoderSize = LITERAL_CODER_SIZE ∧
+    Gen.C01.lclpMax = LZMA_LCLP_MAX ∧ Gen.C01.pbMax = LZMA_PB_MAX := by decide
+
+/-- the state-update macros of lzma_common.h, on all 12 states -/
+theorem gen_state_machine :
+    Gen.C01.stateTable = (List.range 12).map (fun s =>
+      (updateLiteral s, updateMatch s, updateLongRep s, updateShortRep s, (if isLiteralState s then 1 else 0),
+       (if isLiteralState s then updateLiteralNormal s else updateLiteralMatched s))) := by decide
+
+/-- `get_dist_state(len)` for every length 2..273 -/
+theorem gen_dist_state : Gen.C01.distStateTable = (List.range 272).map (fun i => getDistState (i + 2)) := by decide +kernel
+
+/-- `get_dist_slot` (table version of fastpos.h) = the closed form of the model, on 0..1023 and around every power of two -/
+theorem gen_dist_slot :
+    Gen.C01.distSlot0 ++ Gen.C01.distSlot1 ++ Gen.C01.distSlot2 ++ Gen.C01.distSlot3 = (List.range 1024).map getDistSlot ∧
+    Gen.C01.distSlotGrid.all (fun x => getDistSlot x.1 == x.2) = true := by decide +kernel
+
+/-- `literal_mask_calc` and `literal_subcoder` for every valid lc/lp on a grid of positions and previous bytes -/
+theorem gen_literal_subcoder :
+    Gen.C01.literalMaskTable.all (fun x => literalMask x.1 x.2.1 == x.2.2) = true ∧
+    Gen.C01.literalSubcoderGrid.all (fun x => literalSubcoder x.1 x.2.1 x.2.2.1 x.2.2.2.1 == x.2.2.2.2) = true := by decide +kernel
+
+/-- the probability update expressions of `rc_encode`, for every value 0..2047 -/
+theorem gen_prob_update :
+    Gen.C01.probUpd0 ++ Gen.C01.probUpd1 ++ Gen.C01.probUpd2 ++ Gen.C01.probUpd3 ++ Gen.C01.probUpd4 ++ Gen.C01.probUpd5
+      ++ Gen.C01.probUpd6 ++ Gen.C01.probUpd7 = (List.range 2048).map (fun p => (probUpdate0 p, probUpdate1 p)) := by decide +kernel
+
+/-- the REAL `rc_shift_low`, run on boundary states (`low` around 0xFF000000 and 2^32, `cache` around 0xFF, several
+    `cache_size`), does what the model's `shiftLow` does: new low, cache, cache_size and the bytes written -/
+theorem gen_shift_low :
+    Gen.C01.shiftLowGrid.all (fun x =>
+      let e := shiftLow { low := x.1, cache := x.2.1, cacheSize := x.2.2.1, range := 0, outTotal := 0, outRev := [] }
+      e.low == x.2.2.2.1 && e.cache == x.2.2.2.2.1 && e.cacheSize == x.2.2.2.2.2.1
+        && e.out.map UInt8.toNat == x.2.2.2.2.2.2 && e.outTotal == x.2.2.2.2.2.2.length) = true := by decide +kernel
 
 /-- THE range-coder round trip. For every operation list (probability bits in arbitrary contexts with adaptive
     probabilities, and direct bits) the bytes produced by the C-style encoder (`rc_shift_low` with `cache`/`cache_size`
